@@ -261,7 +261,8 @@ class Check(core.CheckBase):
             if not shared:
                 continue
             self.stats['shared_default_candidates'] += 1
-            # behavioural witness: edit through the first instance, look at the second and at a third one
+            # behavioural witness: edit through the first instance, look at the second and at a third, later one
+            pristine = self.visible_state(getattr(second, field.name))
             witness = self._edit_in_place(value_a)
             if witness is None:
                 continue
@@ -269,17 +270,26 @@ class Check(core.CheckBase):
                 third = self._construct(cls, template)
             except Exception:  # pylint: disable=broad-except
                 third = second
-            state_b = structural.deep_state(getattr(second, field.name), strict_types=True)
-            state_c = structural.deep_state(getattr(third, field.name), strict_types=True)
-            state_a = structural.deep_state(value_a, strict_types=True)
-            if state_b == state_a or state_c == state_a:
+            changed_other = self.visible_state(getattr(second, field.name)) != pristine
+            changed_later = self.visible_state(getattr(third, field.name)) != pristine
+            if changed_other or changed_later:
                 found.append(self.violation(
                     'shared-default|%s.%s' % (structural.owner_of_field(cls, field.name), field.name),
                     'editing %s.%s of one instance in place (%s) changed the same field of %s' % (
                         cls.__name__, field.name, witness,
-                        'another instance and of later ones' if state_b == state_a and state_c == state_a else
-                        'another instance' if state_b == state_a else 'instances created later'), case))
+                        'another instance and of later ones' if changed_other and changed_later else
+                        'another instance' if changed_other else 'instances created later'), case))
         return found
+
+    @staticmethod
+    def visible_state(value):
+        """What a caller sees of a field value: its strict state and, for vectors, the items it iterates over
+        and the bytes it composes (private bookkeeping such as a cached size may lag behind shared storage)."""
+        from cryptoparser.common.base import ArrayBase  # pylint: disable=import-outside-toplevel
+        state = [structural.deep_state(value, strict_types=True)]
+        if isinstance(value, ArrayBase):
+            state.append(structural.deep_state(list(value), strict_types=True))
+        return state
 
     def _edit_in_place(self, value):
         """Mutate `value` through its own public interface; returns a description or None."""
